@@ -185,37 +185,67 @@ func r06_4(c *Ctx, r *Report) {
 	if fn != nil {
 		loops, _ := findLoops(fn)
 		okk := false
-		detail := "no loop of the shape for i := 0; i < len(arr); i++ found"
+		detail := "no loop that visits arr[0], arr[1], ..., arr[len(arr)-1] in turn was found (for i := 0; i < len(arr); i++, or for range arr)"
+		isLen := func(v ssa.Value) bool {
+			call, ok := v.(*ssa.Call)
+			if !ok {
+				return false
+			}
+			b, ok := call.Common().Value.(*ssa.Builtin)
+			return ok && b.Name() == "len" && call.Common().Args[0] == ssa.Value(fn.Params[0])
+		}
 		for _, li := range loops {
 			for _, ins := range li.header.Instrs {
 				phi, isPhi := ins.(*ssa.Phi)
 				if !isPhi {
 					break
 				}
-				init0, step1 := false, false
+				var init int64 = -99
+				var next ssa.Value
 				for i, e := range phi.Edges {
 					if li.body[li.header.Preds[i]] {
 						if bo, ok := e.(*ssa.BinOp); ok && bo.Op == token.ADD && bo.X == ssa.Value(phi) {
 							if k, ok := constInt(bo.Y); ok && k == 1 {
-								step1 = true
+								next = bo
 							}
 						}
-					} else if k, ok := constInt(e); ok && k == 0 {
-						init0 = true
+					} else if k, ok := constInt(e); ok {
+						init = k
 					}
 				}
-				if !init0 || !step1 {
+				iff, ok := li.header.Instrs[len(li.header.Instrs)-1].(*ssa.If)
+				if next == nil || !ok {
 					continue
 				}
-				if iff, ok := li.header.Instrs[len(li.header.Instrs)-1].(*ssa.If); ok {
-					if bo, ok := iff.Cond.(*ssa.BinOp); ok && bo.Op == token.LSS && bo.X == ssa.Value(phi) {
-						if call, ok := bo.Y.(*ssa.Call); ok {
-							if b, ok := call.Common().Value.(*ssa.Builtin); ok && b.Name() == "len" && call.Common().Args[0] == ssa.Value(fn.Params[0]) {
-								okk = true
-								detail = "i from 0 while i < len(arr), step 1"
+				bo, ok := iff.Cond.(*ssa.BinOp)
+				if !ok || bo.Op != token.LSS || !isLen(bo.Y) {
+					continue
+				}
+				// the index that is tested against len(arr) is the one every element access in the loop uses
+				var counter ssa.Value
+				switch {
+				case init == 0 && bo.X == ssa.Value(phi):
+					counter = phi
+				case init == -1 && bo.X == next:
+					counter = next
+				default:
+					continue
+				}
+				uses, other := 0, 0
+				for blk := range li.body {
+					for _, in2 := range blk.Instrs {
+						if ia, ok := in2.(*ssa.IndexAddr); ok && ia.X == ssa.Value(fn.Params[0]) {
+							if ia.Index == counter {
+								uses++
+							} else {
+								other++
 							}
 						}
 					}
+				}
+				if uses >= 1 && other == 0 {
+					okk = true
+					detail = "the counter runs from 0 while < len(arr) in steps of 1 and every element access is arr[counter]"
 				}
 			}
 		}
